@@ -482,15 +482,24 @@ func didSystem(v didVariant) *explore.System {
 			return world.New(world.Options{Accounts: []*world.Account{env.R1, env.R2}}), newDidModel()
 		},
 	}
+	withHistory := v.Replays || v.Mismatch
 	sys.Extra = func(m any) []byte {
-		var b []byte
-		for _, a := range m.(*didModel).Accepted {
-			b = append(b, a.Hash...)
+		dm := m.(*didModel)
+		h := sha256.New()
+		for _, k := range sortedKeys(dm.Entries) {
+			e := dm.Entries[k]
+			var doc []byte
+			if e.Doc != nil {
+				doc, _ = e.Doc.Marshal()
+			}
+			fmt.Fprintf(h, "E%q=%d/%v/%x;", k, e.Seq, e.Tomb, doc)
 		}
-		return b
-	}
-	if !v.Replays && !v.Mismatch {
-		sys.Extra = nil
+		if withHistory {
+			for _, a := range dm.Accepted {
+				h.Write([]byte(a.Hash))
+			}
+		}
+		return h.Sum(nil)
 	}
 	sys.OnStep = func(s *explore.Step) {
 		m := s.M.(*didModel)
